@@ -21,4 +21,35 @@ theorem block_end_nonclass (env : Env) (F : Nat) (c : Core) (w : World) (blk : B
     | some e => rfl
     | none => simp [Block.view, hk, pure, interp]
 
+/-- the block a `push` creates -/
+def pushedBlock (hdr : BlockHdr) (w : World) : Block :=
+  { id := w.nextId, hdr := hdr, loc := hdr.loc, access := hdr.access, priorMuted := w.muted }
+
+/-- the start callback a `push` delivers -/
+def pushEvent (hdr : BlockHdr) (w : World) : Event :=
+  mkEvent { w with stack := pushedBlock hdr w :: w.stack, nextId := w.nextId + 1 } .blockStart (pushedBlock hdr w)
+    (w.stack.head?.map (·.id))
+
+/-- the parser state after a `push` whose callback was delivered and returned -/
+def pushedWorld (env : Env) (hdr : BlockHdr) (w : World) : World :=
+  { w with stack := pushedBlock hdr w :: w.stack, nextId := w.nextId + 1, events := w.events ++ [pushEvent hdr w],
+           delivered := w.delivered + 1, muted := env.skip w.nextId hdr }
+
+/-- opening a block under an active visitor that does not raise: ONE start callback for a new
+    block (fresh state id, child of the innermost open block), exactly that block pushed, the
+    visitor muted iff the callback asks to skip the block -/
+theorem interp_push_passing (env : Env) (hdr : BlockHdr) (w : World) (hmu : w.muted = false)
+    (hfa : ¬ env.faultAt = some w.delivered) :
+    interp env (Prog.push hdr (Prog.pure ())) w = (pushedWorld env hdr w, .ok ()) := by
+  simp only [interp, deliver, hmu, Bool.false_eq_true, ↓reduceIte, hfa, Bool.not_false, Bool.true_and]
+  cases hsk : env.skip w.nextId hdr with
+  | true => simp [pushedWorld, pushEvent, pushedBlock, hsk, hmu]
+  | false => simp [pushedWorld, pushEvent, pushedBlock, hsk, hmu]
+
+theorem pushEvent_fields (hdr : BlockHdr) (w : World) :
+    (pushEvent hdr w).kind = .blockStart ∧ (pushEvent hdr w).stateId = w.nextId ∧
+    (pushEvent hdr w).parentId = w.stack.head?.map (·.id) ∧ (pushEvent hdr w).hdr = hdr ∧
+    (pushEvent hdr w).stateKind = hdr.kind :=
+  ⟨rfl, rfl, rfl, rfl, rfl⟩
+
 end Cxx
